@@ -258,7 +258,9 @@ async def _fam_connect(rec, case):
                 k, rule = R.validate_chain(_buf(hdrs), E2, MAXT, genesis)
                 rec.hit('V3.chain_validated')
                 if k is not None:
-                    mech = 'stale-tail-after-shorter-fork' if (k in junctions or k == pre_E) and rule == 'link' else rule
+                    # the stale tail begins where the model's valid chain ends (len(cur): the fork's end plus whatever extended it since;
+                    # thorough run #2 mis-keyed a case where the fork had been extended before the stale tip was built on)
+                    mech = 'stale-tail-after-shorter-fork' if (k in junctions or k == pre_E or k == len(cur)) and rule == 'link' else rule
                     rec.violation(f'C07/V3/stored-chain-invalid/{mech}',
                                   f'a batch linking to the stale old tip (height {n_st - 1}) was connected after a shorter fork ended at {pre_E}: '
                                   f'chain [0,{E2}) up to the end of the most recently connected batch does not link at height {k}',
